@@ -886,3 +886,62 @@ B('C11', 'extra variables test is a proper-superset test', ITEMS,
   "            rhs_vars = set(self.prop.rhs.get_vars())\n            if not rhs_vars.issubset(lhs_vars):", "            rhs_vars = set(self.prop.rhs.get_vars())\n            if rhs_vars > lhs_vars:", 'C11.D7', '')
 B('C01', 'blocks walked without comparing identifier and position (kernel view)', THEORY,
   "            if s.id.id != prefix + (i,):\n                raise CheckProofException(\"id %s does not match position in proof\" % s.id)\n", "", 'C01.K15', 'item-at-its-position')
+# ------------------------------------------------------------------------------------------- truth tables / pattern evaluators
+B('C18', 'compare_ac compares the operands of a sum without testing the second term', VM,
+  "        return tm2.is_plus() and compare_ac(tm1.arg1, tm2.arg1) and compare_ac(tm1.arg, tm2.arg)", "        return compare_ac(tm1.arg1, tm2.arg1) and compare_ac(tm1.arg, tm2.arg)", 'C18.R15', 'compare_ac')
+N('C18', 'compare_ac tests the second term first', VM,
+  "        return tm2.is_plus() and compare_ac(tm1.arg1, tm2.arg1) and compare_ac(tm1.arg, tm2.arg)",
+  "        if not tm2.is_plus():\n            return False\n        return compare_ac(tm1.arg1, tm2.arg1) and compare_ac(tm1.arg, tm2.arg)")
+B('C18', 'onepoint does not compare the equation with the value of the variable', VM,
+  "        return tm.is_equals() and ((tm.lhs == v and tm.rhs == t) or (tm.rhs == v and tm.lhs == t))", "        return tm.is_equals() and (tm.lhs == v or tm.rhs == v)", 'C18.R16', 'check_onepoint')
+B('C18', 'onepoint exists case: flag not reset per variable', VM,
+  "        for v, t in one_val_var.items():\n            found = False\n            for i, conj in enumerate(conjs):\n                if is_eq_of(conj, v, t):",
+  "        found = False\n        for v, t in one_val_var.items():\n            for i, conj in enumerate(conjs):\n                if is_eq_of(conj, v, t):", 'C18.R17', 'check_onepoint')
+B('C18', 'onepoint exists case: loop over the variables left after the first one', VM,
+  "                    if conj.lhs != v:\n                        conjs[i] = Eq(conj.rhs, conj.lhs)\n                    break\n            if not found:\n                raise VeriTException(\"onepoint\", \"exists - equation not found\")",
+  "                    if conj.lhs != v:\n                        conjs[i] = Eq(conj.rhs, conj.lhs)\n                    break\n            if not found:\n                raise VeriTException(\"onepoint\", \"exists - equation not found\")\n            break", 'C18.R17', 'check_onepoint')
+B('C18', 'qnt_simplify ignores the stripped variables', VM,
+  "        l_vars, l_bd = lhs.strip_quant()\n        if any(l_bd.occurs_var(v) for v in l_vars):\n            raise VeriTException(\"qnf_simplify\", \"a quantified variable occurs in the body\")\n", "        _, l_bd = lhs.strip_quant()\n", 'C18.R18', 'verit_qnt_simplify')
+B('C18', 'qnt_cnf ignores the variables of the conclusion', VM,
+  "        if any(prem.occurs_var(y) for y in ys):\n            raise VeriTException(\"qnt_cnf\", \"a variable quantified in the conclusion is free in the premise\")\n", "", 'C18.R18', 'verit_qnt_cnf')
+B('C18', 'unary_minus_simplify tests a binary minus', VM,
+  "        if lhs_neg_tm.is_uminus():\n            if lhs_neg_tm.arg == rhs:", "        if lhs_neg_tm.is_minus():\n            if lhs_neg_tm.arg == rhs:", 'C18.R19', 'verit_unary_minus_simplify')
+B('C18', 'div_simplify accepts t / t = 1 for every t', VM,
+  "        if lhs.arg1 == lhs.arg and rhs.is_one() and lhs.arg.is_constant() and real.real_eval(lhs.arg) != 0:\n            return Thm(goal)\n        # case 2: t / 1 <--> t\n        if lhs.arg1 == rhs and lhs.arg.is_one():\n            return Thm(goal)\n        if not lhs.is_constant()",
+  "        if lhs.arg1 == lhs.arg and rhs.is_one():\n            return Thm(goal)\n        # case 2: t / 1 <--> t\n        if lhs.arg1 == rhs and lhs.arg.is_one():\n            return Thm(goal)\n        if not lhs.is_constant()", 'C18.R19', 'verit_div_simplify')
+B('C18', 'equiv_pos1 accepts the literals in the wrong polarity', VM,
+  "        if eq_tm.arg1 == arg2 and Not(eq_tm.arg) == arg3:\n            return Thm(Or(*args))\n        else:\n            raise VeriTException(\"equiv_pos1\"",
+  "        if Not(eq_tm.arg1) == arg2 and Not(eq_tm.arg) == arg3:\n            return Thm(Or(*args))\n        else:\n            raise VeriTException(\"equiv_pos1\"", 'C18.R19', 'verit_equiv_pos1')
+B('C18', 'not_equiv1 concludes the negated literals', VM,
+  "        if p1 == pt_p1 and p2 == pt_p2:\n            return Thm(Or(p1, p2), pt.hyps)\n        else:\n            raise VeriTException(\"not_equiv1\"",
+  "        if p1 == Not(pt_p1) and p2 == pt_p2:\n            return Thm(Or(p1, p2), pt.hyps)\n        else:\n            raise VeriTException(\"not_equiv1\"", 'C18.R19', 'verit_not_equiv1')
+B('C18', 'comp_simplify: a <= a <--> false', VM,
+  "        if lhs.is_less_eq() and lhs.arg1 == lhs.arg and rhs == true:", "        if lhs.is_less_eq() and lhs.arg1 == lhs.arg and rhs == false:", 'C18.R19', 'verit_comp_simplify')
+B('C18', 'comp_simplify: a > b <--> ~(b <= a)', VM,
+  "            r_a, r_b = rhs.arg.args\n            if l_a == r_a and l_b == r_b:\n                return Thm(goal)", "            r_a, r_b = rhs.arg.args\n            if l_a == r_b and l_b == r_a:\n                return Thm(goal)", 'C18.R19', 'verit_comp_simplify')
+B('C18', 'implies_simplify: (P --> false) <--> P', VM,
+  "        elif concl == false and Not(prem) == rhs:\n            return Thm(goal)", "        elif concl == false and prem == rhs:\n            return Thm(goal)", 'C18.R19', 'verit_implies_simplify')
+N('C18', 'equiv_pos1: conditions as two nested tests', VM,
+  "        if eq_tm.arg1 == arg2 and Not(eq_tm.arg) == arg3:\n            return Thm(Or(*args))\n        else:\n            raise VeriTException(\"equiv_pos1\"",
+  "        if eq_tm.arg1 == arg2:\n            if arg3 == Not(eq_tm.rhs):\n                return Thm(Or(arg1, arg2, arg3))\n        if True:\n            raise VeriTException(\"equiv_pos1\"")
+N('C18', 'not_equiv1: negated guard form', VM,
+  "        if p1 == pt_p1 and p2 == pt_p2:\n            return Thm(Or(p1, p2), pt.hyps)\n        else:\n            raise VeriTException(\"not_equiv1\"",
+  "        if p1 != pt_p1 or p2 != pt_p2:\n            raise VeriTException(\"not_equiv1\", \"unexpected goal: %s\" % Or(*args))\n        if True:\n            return Thm(Or(*args), pt.hyps)\n        else:\n            raise VeriTException(\"not_equiv1\"")
+B('C18', 'CNF of a negated implication keeps the conclusion positive', VM,
+  "            # ~(A --> B) becomes A & ~B\n            A, B = t.arg.args\n            return get_cnf(And(A, Not(B)))", "            # ~(A --> B) becomes A & ~B\n            A, B = t.arg.args\n            return get_cnf(And(A, B))", 'C18.R20', 'get_cnf')
+B('C18', 'CNF of a negated if-then-else keeps the else branch positive', VM,
+  "            return get_cnf(Or(And(P, Not(Q)), And(Not(P), Not(R))))", "            return get_cnf(Or(And(P, Not(Q)), And(Not(P), R)))", 'C18.R20', 'get_cnf')
+N('C18', 'CNF of an equivalence with the conjuncts exchanged', VM,
+  "            return get_cnf(Or(And(A, Not(B)), And(B, Not(A))))", "            return get_cnf(Or(And(B, Not(A)), And(A, Not(B))))")
+B('C06', 'simplify1: false <--> q becomes q', 'prover/fologic.py',
+  "        elif fm.arg1 == false:\n            return Not(fm.arg)\n        elif fm.arg == false:\n            return Not(fm.arg1)", "        elif fm.arg1 == false:\n            return fm.arg\n        elif fm.arg == false:\n            return Not(fm.arg1)", 'C06.Z7', 'simplify1')
+B('C06', 'nnf of a negated disjunction is a disjunction', 'prover/fologic.py',
+  "        elif p.is_disj():\n            return And(nnf(Not(p.arg1)), nnf(Not(p.arg)))", "        elif p.is_disj():\n            return Or(nnf(Not(p.arg1)), nnf(Not(p.arg)))", 'C06.Z7', 'nnf')
+B('C06', 'nnf of an implication forgets the negation', 'prover/fologic.py',
+  "        return Or(nnf(Not(fm.arg1)), nnf(fm.arg))", "        return Or(nnf(fm.arg1), nnf(fm.arg))", 'C06.Z7', 'nnf')
+N('C06', 'nnf of an equivalence as two implications', 'prover/fologic.py',
+  "        return Or(And(nnf(fm.arg1), nnf(fm.arg)),\n                  And(nnf(Not(fm.arg1)), nnf(Not(fm.arg))))", "        return And(Or(nnf(Not(fm.arg1)), nnf(fm.arg)),\n                   Or(nnf(Not(fm.arg)), nnf(fm.arg1)))")
+B('C04', 'library statement with a wrong sign', 'library/int.json',
+  '"prop": "n - m = 0 ⟷ -m = -n"', '"prop": "n - m = 0 ⟷ -m = n"', 'C04.M13', 'sub_move_0_l')
+B('C04', 'library statement: distributivity with a dropped factor', 'library/verit.json',
+  '"prop": "¬(if P then Q else R) ⟷ P ∧ ¬Q ∨ ¬P ∧ ¬R"', '"prop": "¬(if P then Q else R) ⟷ P ∧ ¬Q ∨ ¬R"', 'C04.M13', 'verit_not_ite_eq')
